@@ -376,6 +376,19 @@ impl Engine for Decode {
                     check_input(&mut ctx, &mut a01, &mut a02, img, off, "misaligned_root");
                     check_input(&mut ctx, &mut a01, &mut a02, &img[..*ext], off, "misaligned_root");
                 }
+                // aligned to ALIGN and to nothing more (every other placement here is 64-aligned): a validator
+                // that asks for more alignment than the type has must not get away with it
+                for m in [1usize, 3, 5] {
+                    let off = m * align;
+                    if off < 64 {
+                        let r = check_input(&mut ctx, &mut a01, &mut a02, &img[..*ext], off, "exactly_aligned_root");
+                        if let (Some(Ok(o)), true) = (&r, ctx.want02) {
+                            if &o.value != v {
+                                a02.violate(format!("decode/root_content/{}", fam), format!("{} root {:?} at address offset {} reads back {:?}", id, v, off, o.value), json!({"engine": "decode", "shape": id, "off": off, "bytes": hex(&img[..*ext])}));
+                            }
+                        }
+                    }
+                }
                 // zero fill of the spare bytes
                 let mut z = img.clone();
                 for b in &mut z[*ext..] {
